@@ -261,16 +261,24 @@ impl LanguageServer for Server {
     }
 
     fn did_open(&mut self, params: DidOpenTextDocumentParams) -> Self::NotifyResult {
+        #[cfg(tablegen_lsp_verif)]
+        crate::verif::point("main.notif_enter", 0);
         self.set_file_content(&params.text_document.uri, &params.text_document.text);
         self.update_diagnostics();
+        #[cfg(tablegen_lsp_verif)]
+        crate::verif::point("main.notif_exit", 0);
         ControlFlow::Continue(())
     }
 
     fn did_change(&mut self, params: DidChangeTextDocumentParams) -> Self::NotifyResult {
+        #[cfg(tablegen_lsp_verif)]
+        crate::verif::point("main.notif_enter", 0);
         if let Some(change) = params.content_changes.first() {
             self.set_file_content(&params.text_document.uri, &change.text);
             self.update_diagnostics();
         }
+        #[cfg(tablegen_lsp_verif)]
+        crate::verif::point("main.notif_exit", 0);
         ControlFlow::Continue(())
     }
 }
@@ -279,11 +287,21 @@ impl Server {
     fn set_file_content(&mut self, uri: &Url, text: &str) {
         let path = UrlExt::to_file_path(uri);
         let mut vfs = self.vfs.write().unwrap();
+        #[cfg(tablegen_lsp_verif)]
+        crate::verif::point("main.vfs_w_acquired", 0);
         let file_id = vfs.assign_or_get_file_id(path.clone());
         let text: Arc<str> = Arc::from(text);
         vfs.set_open_file_content(path, Arc::clone(&text));
         self.host.set_file_content(file_id, text);
+        #[cfg(tablegen_lsp_verif)]
+        crate::verif::point("main.content_set", 0);
         self.host.set_root_file(&mut *vfs, file_id);
+        #[cfg(tablegen_lsp_verif)]
+        {
+            crate::verif::point("main.root_set", 0);
+            drop(vfs);
+            crate::verif::point("main.vfs_w_released", 0);
+        }
     }
 
     fn update_diagnostics(&mut self) {
@@ -304,6 +322,8 @@ impl Server {
                 .collect();
 
             for (file_id, diagnostics) in diagnostic_map {
+                #[cfg(tablegen_lsp_verif)]
+                crate::verif::task_point("task.publish");
                 let line_index = snap.analysis.line_index(file_id);
                 let lsp_diags = diagnostics
                     .into_iter()
@@ -339,6 +359,15 @@ impl Server {
             // while it waits for every outstanding snapshot to be dropped
             vfs: Arc::new(self.vfs.read().unwrap().clone()),
         };
+        #[cfg(tablegen_lsp_verif)]
+        {
+            let id = crate::verif::next_task_id();
+            crate::verif::point("main.spawn", id);
+            return task::spawn_blocking(move || {
+                crate::verif::run_task(id, move || f(snap, params))
+            });
+        }
+        #[cfg(not(tablegen_lsp_verif))]
         task::spawn_blocking(move || f(snap, params))
     }
 }
